@@ -311,3 +311,4 @@ M("C10", "C10.groups", _G, "    | 'require' \"monitor\" e=expression n=['as' a=s
 M("C10", "C10.partial", _CO, "        if node.orelse and not node.except_handlers:\n", "        if False:\n", "c10-try-else-without-except")
 M("C10", "C10.children", _CO, "            value = ast.Constant(None) if node.value is None else self.visit(node.value)", "            value = ast.Constant(None) if node.value is None else node.value", "c10-return-value-unvisited")
 M("C04", "C04.polarity", _R, "                    obj.occupiedSpace.mesh.vertices - obj_candidate_point, axis=1\n                )\n            )\n\n            # Compute the minimum distance from the region to this point.", "                    obj.occupiedSpace.mesh.vertices - obj.position, axis=1\n                )\n            )\n\n            # Compute the minimum distance from the region to this point.", "c04-circumradius-other-anchor")
+M("C18", "C18.options", _SE, "            hasher.update(str(value).encode())", "            hasher.update(struct.pack(\"<d\", float(value)) if not isinstance(value, str) else value.encode())", "c18-options-hash-lossy")
